@@ -114,8 +114,60 @@ def report_shared_results(prog, rep, pid):
                                   'the result is cached and handed out again: a caller that modifies the returned array in place '
                                   '(w /= w.sum(), w *= x) changes what later calls with the same arguments return',
                                   'src/spectrum/%s.py:%s' % (m, f.lineno))
+    # state that survives a call: a mutable default argument, a module-level container / array, or a `global`, written inside a function
+    MUT = ('append', 'extend', 'insert', 'update', 'setdefault', 'pop', 'clear', 'remove', 'fill', 'resize', 'sort', 'put', 'itemset')
+
+    def written_names(fn):
+        out = {}
+        for x in ast.walk(fn):
+            tgt = None
+            if isinstance(x, (ast.Assign, ast.AugAssign, ast.AnnAssign)):
+                ts_ = x.targets if isinstance(x, ast.Assign) else [x.target]
+                for t_ in ts_:
+                    while isinstance(t_, ast.Subscript):
+                        t_ = t_.value
+                        tgt = t_
+                    if isinstance(x, ast.AugAssign) and isinstance(x.target, ast.Name):
+                        tgt = x.target
+                    if isinstance(tgt, ast.Name):
+                        out.setdefault(tgt.id, x)
+            elif isinstance(x, ast.Call) and isinstance(x.func, ast.Attribute) and x.func.attr in MUT and isinstance(x.func.value, ast.Name):
+                out.setdefault(x.func.value.id, x)
+        return out
+    for m in mods:
+        mod = prog.modules[m]
+        tree_body = getattr(mod, 'tree', None)
+        mutable_globals = set()
+        if tree_body is not None:
+            for st_ in tree_body.body:
+                if isinstance(st_, ast.Assign) and isinstance(st_.value, (ast.List, ast.Dict, ast.Set, ast.Call, ast.ListComp, ast.DictComp)):
+                    for t_ in st_.targets:
+                        if isinstance(t_, ast.Name) and t_.id != '__all__':
+                            mutable_globals.add(t_.id)
+        defs = [(None, f) for f in mod.funcs.values()]
+        for cname, cnode in mod.classes.items():
+            defs += [(cname, f) for f in cnode.body if isinstance(f, ast.FunctionDef)]
+        for cname, f in defs:
+            w = written_names(f)
+            a_ = f.args
+            pos = a_.args[len(a_.args) - len(a_.defaults):] if a_.defaults else []
+            pairs = list(zip(pos, a_.defaults)) + [(k_, d_) for k_, d_ in zip(a_.kwonlyargs, a_.kw_defaults) if d_ is not None]
+            locals_ = {x.arg for x in a_.args + a_.kwonlyargs} | {t.id for x in ast.walk(f) if isinstance(x, ast.Assign) for t in x.targets
+                                                                   if isinstance(t, ast.Name)}
+            globs = {g for x in ast.walk(f) if isinstance(x, ast.Global) for g in x.names}
+            fq = '%s.%s' % (m, (cname + '.' if cname else '') + f.name)
+            for par, dflt in pairs:
+                if isinstance(dflt, (ast.List, ast.Dict, ast.Set, ast.Call, ast.ListComp)) and par.arg in w and \
+                        not any(isinstance(x, ast.Assign) and any(isinstance(t, ast.Name) and t.id == par.arg for t in x.targets) for x in ast.walk(f)):
+                    rep.violation('no-shared-result', fq, 'default %s=%s' % (par.arg, normalise(dflt)[:30]), 'the mutable default of `%s` is '
+                                  'created once and written inside the function (%s): what one call stores is seen by the next call that '
+                                  'relies on the default' % (par.arg, normalise(w[par.arg])[:50]), 'src/spectrum/%s.py:%s' % (m, f.lineno))
+            for g in sorted((set(w) & ((mutable_globals - locals_) | globs))):
+                rep.violation('no-shared-result', fq, 'module-level %s' % g, 'the function writes into module-level state (%s): the result of a '
+                              'call depends on the calls made before it' % normalise(w[g])[:50], 'src/spectrum/%s.py:%s' % (m, f.lineno))
     if not any(o.rule == 'no-shared-result' and o.status == 'VIOLATION' for o in rep.obls):
-        rep.proved('no-shared-result', ','.join(mods), 'function definitions', '%d definitions examined: none returns a cached mutable object' % n)
+        rep.proved('no-shared-result', ','.join(mods), 'function definitions', '%d definitions examined: none returns a cached mutable object, '
+                   'writes a mutable default or module-level state' % n)
     rep.floor('definitions examined for result caching', n, 1)
 
 
@@ -145,9 +197,153 @@ def report_transform_inputs(prog, rep, pid, interps):
                    'spectrum with new values' % n)
 
 
+# configuration parameters of the estimators (data arguments and orders are routinely transformed on the way down and are
+# covered by the wiring rules of the individual properties)
+FORWARD_NAMES = frozenset(['sampling', 'NFFT', 'scale_by_freq', 'detrend', 'window', 'lag', 'method', 'criteria', 'threshold', 'NSIG',
+                           'NW', 'k', 'e', 'v', 'sides', 'allow_singularity', 'norm', 'correlation_method', 'verbose', 'show'])
+
+# same-named parameters that are deliberately NOT handed on unchanged (confirmed by reading, one reason each)
+FORWARD_EXCEPTIONS = {
+    ('arma.arma_estimate', 'ma', 'X'): 'the MA stage runs on the AR-filtered residual Y, not on the data',
+    ('correlog.CORRELOGRAMPSD', 'Window', 'norm'): "CORRELOGRAMPSD's norm is the correlation normalisation, Window's is the window's own",
+    ('lpc.lpc', 'nextpow2', 'x'): 'nextpow2 receives the number of lags, a size derived from x',
+    ('minvar.minvar', 'arburg', 'order'): 'a dimension m uses the Burg model of order m-1',
+    ('mtm.pmtm', 'nextpow2', 'x'): 'nextpow2 receives the data length',
+    ('mtm._crosscov', '_autocov', 'x'): 'the normaliser needs the autocovariance of each argument in turn',
+    ('periodogram.WelchPeriodogram', 'Spectrum', 'NFFT'): 'matplotlib.psd computes the estimate; the object only carries it',
+    ('periodogram.WelchPeriodogram', 'Spectrum', 'sampling'): 'matplotlib.psd computes the estimate; the object only carries it',
+    ('tools._twosided_zerolag', 'twosided', 'data'): 'the zero lag is inserted first',
+    ('yulewalker.aryule', 'LEVINSON', 'order'): 'the autocorrelation is cut to order+1 lags, so the default order is the requested one',
+}
+
+
+def report_forwarding(prog, rep, pid):
+    """`forwarding-by-name`: a function that calls another function of the package (or its base-class constructor) which has a
+    parameter of the same name hands its own value on unchanged.  On the pinned tree 132 of 142 such (caller, callee, parameter)
+    triples do (all names); the rule is armed for the configuration parameters FORWARD_NAMES, whose deliberate exceptions are listed.  A dropped keyword silently selects the callee default."""
+    mods = [m for m in _property_modules(pid) if m in prog.modules]
+    if not mods:
+        return
+    index = {}
+    for mn, m in prog.modules.items():
+        for fn, node in m.funcs.items():
+            index.setdefault(fn, []).append(node)
+        for cn, cnode in m.classes.items():
+            for b in cnode.body:
+                if isinstance(b, ast.FunctionDef) and b.name == '__init__':
+                    index.setdefault(cn, []).append(b)
+
+    def params(fn):
+        a = [x.arg for x in fn.args.args] + [x.arg for x in fn.args.kwonlyargs]
+        return a[1:] if a and a[0] == 'self' else a
+    n = 0
+    bad = 0
+    for mn in mods:
+        m = prog.modules[mn]
+        defs = [(mn + '.' + fn, node, None) for fn, node in m.funcs.items()]
+        for cn, cnode in m.classes.items():
+            defs += [(mn + '.' + cn + '.' + b.name, b, cnode) for b in cnode.body if isinstance(b, ast.FunctionDef)]
+        for q, f, cnode in defs:
+            pf = params(f)
+            # local aliases  v = p  (single assignment of a plain parameter name) and re-bindings of a parameter
+            assigned = {}
+            for a_ in ast.walk(f):
+                if isinstance(a_, ast.Assign) and len(a_.targets) == 1 and isinstance(a_.targets[0], ast.Name):
+                    assigned.setdefault(a_.targets[0].id, []).append(a_.value)
+                elif isinstance(a_, (ast.AugAssign, ast.For)) and isinstance(getattr(a_, 'target', None), ast.Name):
+                    assigned.setdefault(a_.target.id, []).append(None)
+            for c in ast.walk(f):
+                if not isinstance(c, ast.Call):
+                    continue
+                gname = None
+                if isinstance(c.func, ast.Name):
+                    gname = c.func.id
+                elif isinstance(c.func, ast.Attribute) and c.func.attr == '__init__' and cnode is not None and cnode.bases:
+                    b0 = cnode.bases[0]
+                    gname = b0.id if isinstance(b0, ast.Name) else getattr(b0, 'attr', None)
+                elif isinstance(c.func, ast.Attribute) and isinstance(c.func.value, ast.Name) and c.func.value.id in prog.modules:
+                    gname = c.func.attr
+                targets = index.get(gname, []) if gname else []
+                if len(targets) != 1 or targets[0] is f:
+                    continue
+                pg = params(targets[0])
+                passed = {}
+                star = False
+                for i, a_ in enumerate(c.args):
+                    if isinstance(a_, ast.Starred):
+                        star = True
+                        break
+                    if i < len(pg):
+                        passed[pg[i]] = a_
+                if star or any(k.arg is None for k in c.keywords):
+                    continue            # *args / **kwargs: what is handed on is not visible in the call
+                for k in c.keywords:
+                    passed[k.arg] = k.value
+                if gname.startswith('_'):
+                    continue            # private helpers: their parameter names are not an interface
+                for p_ in sorted(set(pf) & set(pg) & FORWARD_NAMES):
+                    if (q, gname, p_) in FORWARD_EXCEPTIONS:
+                        continue
+                    if p_ in assigned:
+                        continue        # the caller computes its own value for this name before the call (normalised argument)
+                    n += 1
+                    v = passed.get(p_)
+                    ok = isinstance(v, ast.Name) and (v.id == p_ or (len(assigned.get(v.id, [])) == 1 and isinstance(assigned[v.id][0], ast.Name)
+                                                                      and assigned[v.id][0].id == p_))
+                    if not ok:
+                        bad += 1
+                        what = 'does not pass it (the default of %s applies)' % gname if v is None else 'passes `%s` instead' % normalise(v)[:40]
+                        rep.violation('forwarding-by-name', q, '%s(.. %s ..)' % (gname, p_), '%s has a parameter `%s` of its own and calls %s, '
+                                      'which has one too, but %s: the value the caller of %s gave is silently ignored'
+                                      % (q.split('.')[-1], p_, gname, what, q.split('.')[-1]), 'src/spectrum/%s.py:%d' % (mn, c.lineno))
+    rep.rule('forwarding-by-name', 'for every call from a function of the anchored modules to a package function / base constructor that '
+             'shares a parameter name: the caller\'s own value is handed on unchanged (configuration parameters only; confirmed exceptions are listed in the checker)')
+    if n and not bad:
+        rep.proved('forwarding-by-name', ','.join(mods), 'same-named parameters', '%d (caller, callee, parameter) triples: all handed on unchanged' % n)
+
+
+def report_identity_literals(prog, rep, pid):
+    """`no-identity-literal`: a configuration value (norm, method, criteria, sides, a count) is compared with a literal by value.
+    `x is 'coeff'` is true only for the interned literal object: an equal string that was parsed, lower-cased or read from a
+    file selects another branch (CPython itself warns about the construct)."""
+    mods = [m for m in _property_modules(pid) if m in prog.modules]
+    if not mods:
+        return
+    n = 0
+    bad = 0
+    for m in mods:
+        tree = prog.modules[m].tree
+        owner = {}
+        for f in ast.walk(tree):
+            if isinstance(f, (ast.FunctionDef, ast.AsyncFunctionDef)):
+                for x in ast.walk(f):
+                    owner.setdefault(id(x), f.name)
+        for x in ast.walk(tree):
+            if not isinstance(x, ast.Compare):
+                continue
+            n += 1
+            left = x.left
+            for op, right in zip(x.ops, x.comparators):
+                if isinstance(op, (ast.Is, ast.IsNot)):
+                    for side in (left, right):
+                        if isinstance(side, ast.Constant) and isinstance(side.value, (str, bytes, int, float, complex)) \
+                                and not isinstance(side.value, bool):
+                            bad += 1
+                            rep.violation('no-identity-literal', '%s.%s' % (m, owner.get(id(x), '<module>')), normalise(x)[:60],
+                                          'identity comparison with the literal %r: an equal value that is not that very object (a string '
+                                          'built at run time, a float, a large int) fails the test and silently takes another branch'
+                                          % (side.value,), 'src/spectrum/%s.py:%d' % (m, x.lineno))
+                left = right
+    rep.rule('no-identity-literal', 'no `is` / `is not` against a str / bytes / number literal in the anchored modules')
+    if not bad:
+        rep.proved('no-identity-literal', ','.join(mods), 'comparisons', '%d comparisons examined: identity is used only with None / True / False' % n)
+
+
 def report(prog, rep, pid, interps):
     report_shared_results(prog, rep, pid)
+    report_identity_literals(prog, rep, pid)
     report_transform_inputs(prog, rep, pid, interps)
+    report_forwarding(prog, rep, pid)
     scope = SCOPE.get(pid)
     if not scope:
         return
